@@ -28,29 +28,23 @@ Set Printing Depth 1000000.
 """
 
 
-class _Timeout(BaseException):
-    pass
+_Timeout = U.TimeLimit
 
 
 def _alarm(*_):
-    raise _Timeout
+    raise U.TimeLimit
 
 
 def impl(f, limit=3):
-    import signal
-
-    signal.signal(signal.SIGALRM, _alarm)
-    signal.alarm(limit)
     try:
-        return {"ok": U.to_ir(f())}
-    except _Timeout:
+        with U.time_limit(limit):
+            return {"ok": U.to_ir(f())}
+    except U.TimeLimit:
         return {"timeout": True}
     except (U.IRError,) as e:
         return {"irerror": str(e)[:300]}
     except Exception as e:  # noqa: BLE001
         return {"exc": type(e).__name__ + ": " + str(e)[:200]}
-    finally:
-        signal.alarm(0)
 
 
 def mutate(g, ir):
@@ -78,7 +72,12 @@ def mutate(g, ir):
         return ("U", q, args, attrs)
     if k == 2 and attrs:
         j = r.randrange(len(attrs))
-        attrs[j] = r.choice([("n",), ("s", "rho"), ("o", "uneval_ir.pool_function2")])
+        twin = {"uneval_ir.CLOSURE_A": "uneval_ir.CLOSURE_B", "uneval_ir.CLOSURE_B": "uneval_ir.CLOSURE_A",
+                "uneval_ir.LAMBDA_A[0]": "uneval_ir.LAMBDA_A[1]", "uneval_ir.LAMBDA_A[1]": "uneval_ir.LAMBDA_A[0]"}
+        if attrs[j][0] == "o" and attrs[j][1] in twin:
+            attrs[j] = ("o", twin[attrs[j][1]])      # a different function object with the same qualname
+        else:
+            attrs[j] = r.choice([("n",), ("s", "rho"), ("o", "uneval_ir.pool_function2"), ("o", "uneval_ir.CLOSURE_A")])
         return ("U", q, args, attrs)
     if args:
         j = r.randrange(len(args))
@@ -90,7 +89,8 @@ def gen(mode, seed, n, outdir):
     import classtab
 
     tab = json.loads(json.dumps(classtab.build()))
-    g = G.Gen(seed * 7919 + (14 if mode == "C14" else 15), helpers=(mode == "C15"))
+    g = G.Gen(seed * 7919 + (14 if mode == "C14" else 15), helpers=(mode == "C15"),
+              picklable=(mode == "C15"), poolsum=(mode == "C14"))
     cases, lines, kinds = [], [], {}
     samples = []
 
@@ -133,7 +133,8 @@ def gen(mode, seed, n, outdir):
             ko, vo = U.from_ir(k0), U.from_ir(v0)
             add(cid, "subs", f"show (subs1 gen_table Shallow ({U.coq(k0)}) ({U.coq(v0)}) {name})", "string",
                 impl(lambda: obj.subs(ko, vo)), rbase)
-        d = impl(lambda: obj.doit())
+        # PoolSum's unfolding (C18) is not in this model: xreplace/subs/==/hash only for trees containing one
+        d = impl(lambda: obj.doit()) if not G.has_head(ir, G.POOLSUM) else {"exc": "poolsum"}
         if "ok" in d and U.ir_size(d["ok"]) <= MAXNODES and G.model_doit_size(ir, tab) <= 4 * MAXNODES:
             add(cid, "doit", f"show (doitF gen_table {FUEL} {name})", "string", d, base)
             if er and not ar and all(k[0] == "Y" for k, _ in er):
